@@ -6,7 +6,7 @@ use bump_scope::{
     BaseAllocator, BumpScope, MutBumpString, MutBumpVec, MutBumpVecRev,
     settings::BumpAllocatorSettings,
     stats::Stats,
-    traits::{MutBumpAllocatorCoreScope, MutBumpAllocatorTypedScope},
+    traits::MutBumpAllocatorCoreScope,
 };
 use std::panic::{AssertUnwindSafe, catch_unwind};
 use std::ptr::NonNull;
@@ -201,7 +201,7 @@ impl std::fmt::Display for PanickyDisplay {
             if Some(i) == self.panic_after {
                 std::panic::resume_unwind(Box::new(CallbackPanic));
             }
-            let c = if self.with_nul && i == self.bytes / 2 { '\0' } else { (b'a' + (i % 26) as u8) as char };
+            let c = if self.with_nul && (i == self.bytes / 2 || i + 2 == self.bytes) { '\0' } else { (b'a' + (i % 26) as u8) as char };
             f.write_str(c.encode_utf8(&mut [0; 4]))?;
         }
         if self.panic_after.is_some() {
@@ -354,7 +354,8 @@ where
     let st0 = scope.stats();
     let st0 = if st0.current_chunk().is_some() { Some(st0) } else { None };
     let mut expect = String::new();
-    let pieces = ["a", "é", "€", "𝄞", "xyz"];
+    // a string that ends as a C string gets NULs in two places: `into_cstr` must cut at the first one
+    let pieces = if spec.end == MutEnd::FinaliseCstr { ["a", "é", "\0b", "𝄞", "\0"] } else { ["a", "é", "€", "𝄞", "xyz"] };
     let r = catch_unwind(AssertUnwindSafe(|| {
         let mut s: MutBumpString<&mut BumpScope<'a, A, S>> = if spec.cap == 255 { MutBumpString::new_in(&mut *scope) } else { MutBumpString::with_capacity_in(spec.cap as usize, &mut *scope) };
         snap(st0, s.allocator_stats(), "created", rep);
@@ -408,7 +409,8 @@ where
             }
             MutEnd::FinaliseCstr => {
                 let c = s.into_cstr();
-                Some((NonNull::new(c.as_ptr() as *mut u8).unwrap(), c.to_bytes_with_nul().len(), true))
+                let all = c.to_bytes_with_nul();
+                Some((NonNull::new(c.as_ptr() as *mut u8).unwrap(), all.iter().position(|&b| b == 0).map_or(all.len(), |z| z + 1), true))
             }
         }
     }));
@@ -417,7 +419,13 @@ where
             rep.len = len;
             rep.result = Some(Blk { ptr, len, align: 1 });
             let got = unsafe { std::slice::from_raw_parts(ptr.as_ptr(), len) };
-            rep.content_ok = if cstr { &got[..len - 1] == expect.as_bytes() && got[len - 1] == 0 } else { got == expect.as_bytes() };
+            rep.content_ok = if cstr {
+                let want = expect.as_bytes();
+                let want = &want[..want.iter().position(|&b| b == 0).unwrap_or(want.len())];
+                &got[..len - 1] == want && got[len - 1] == 0
+            } else {
+                got == expect.as_bytes()
+            };
         }
         Ok(None) => {}
         Err(p) => {
@@ -441,7 +449,7 @@ where
     let n = spec.pushes as usize * 4;
     let cstr = spec.kind == MutKind::CstrFmtMut;
     let d = PanickyDisplay { bytes: n, panic_after: if spec.end == MutEnd::Unwind { Some(n / 2) } else { None }, with_nul: cstr && spec.cap == 0 && n > 2 };
-    let mut expect: Vec<u8> = (0..n).map(|i| if d.with_nul && i == n / 2 { 0 } else { b'a' + (i % 26) as u8 }).collect();
+    let mut expect: Vec<u8> = (0..n).map(|i| if d.with_nul && (i == n / 2 || i + 2 == n) { 0 } else { b'a' + (i % 26) as u8 }).collect();
     if cstr {
         if let Some(z) = expect.iter().position(|&b| b == 0) {
             expect.truncate(z);
@@ -451,7 +459,8 @@ where
     let r = catch_unwind(AssertUnwindSafe(|| {
         if cstr {
             let c = scope.alloc_cstr_fmt_mut(format_args!("{d}"));
-            (NonNull::new(c.as_ptr() as *mut u8).unwrap(), c.to_bytes_with_nul().len())
+            // the C string ends at its first NUL, whatever length the slice behind the `CStr` claims
+            (NonNull::new(c.as_ptr() as *mut u8).unwrap(), c.to_bytes_with_nul().iter().position(|&b| b == 0).map_or(c.to_bytes_with_nul().len(), |z| z + 1))
         } else {
             let b = scope.alloc_fmt_mut(format_args!("{d}"));
             let len = b.len();
